@@ -107,6 +107,8 @@ def make_case(rng, b, fam, orient):
     recs = []
     # ---- between species
     s1, s2 = (str(x) for x in rng.choice(syms, size=2, replace=True))
+    if b % 3 == 0:
+        traj.displacements
     r12 = radial_distribution_between_species(trajectory=traj, specie_1=s1, specie_2=s2, max_dist=max_dist, resolution=res)
     r21 = radial_distribution_between_species(trajectory=traj, specie_1=s2, specie_2=s1, max_dist=max_dist, resolution=res)
     vol = math.sqrt(float(np.linalg.det(np.array(G, dtype=float))))
@@ -129,6 +131,11 @@ def make_case(rng, b, fam, orient):
         if 'need at least one array' in str(e):      # no site change at all: outside the domain of the event builder
             return recs
         raise
+    if b % 2:
+        # unrelated analyses on the same trajectory object in between (they switch its internal representation)
+        traj.mean_squared_displacement(), traj.displacements, traj.distances_from_base_position()
+        if b % 4 == 1:
+            tr.diff_trajectory.displacements
     rd = tr.radial_distribution(floating_specie='Li', max_dist=max_dist, resolution=res)
     lab_code = {n_: i for i, n_ in enumerate(names)}
     rdfs, ok = parse_state_rdfs(rd, lab_code, code, nb)
